@@ -188,6 +188,14 @@ class Normalizer(ast.NodeTransformer):
             one = ast.Constant(value=1)
             new = ast.Call(func=ast.Name(id="range", ctx=ast.Load()), args=[ast.BinOp(left=b, op=ast.Sub(), right=one), ast.BinOp(left=a, op=ast.Sub(), right=one), ast.UnaryOp(op=ast.USub(), operand=one)], keywords=[])
             return ast.copy_location(new, node)
+        # operator.lt(a, b) -> a < b   (and the other comparison / arithmetic functions of the operator module)
+        if isinstance(node.func, ast.Attribute) and isinstance(node.func.value, ast.Name) and node.func.value.id == "operator" and len(node.args) == 2 and not node.keywords:
+            cmpops = {"lt": ast.Lt, "le": ast.LtE, "gt": ast.Gt, "ge": ast.GtE, "eq": ast.Eq, "ne": ast.NotEq, "is_": ast.Is, "is_not": ast.IsNot}
+            binops = {"add": ast.Add, "sub": ast.Sub, "mul": ast.Mult, "truediv": ast.Div}
+            if node.func.attr in cmpops:
+                return ast.copy_location(ast.Compare(left=node.args[0], ops=[cmpops[node.func.attr]()], comparators=[node.args[1]]), node)
+            if node.func.attr in binops:
+                return ast.copy_location(ast.BinOp(left=node.args[0], op=binops[node.func.attr](), right=node.args[1]), node)
         # datetime(y, m, d).replace(tzinfo=X)  ->  datetime(y, m, d, tzinfo=X)
         if (
             isinstance(node.func, ast.Attribute) and node.func.attr == "replace" and not node.args and len(node.keywords) == 1 and node.keywords[0].arg == "tzinfo"
